@@ -120,7 +120,11 @@ func c13WordLists(c *Ctx) {
 					s[i] = tape.Last
 				}
 			}
-			g := runGen(b.fresh(w).Rec, &tape.Tape{Script: s, AutoExtend: true})
+			tp := &tape.Tape{Script: s, AutoExtend: true}
+			if run == 1 {
+				tp.RejectAt, tp.RejectRun = map[int]bool{1: true, 2: true}, 20
+			}
+			g := runGen(b.fresh(w).Rec, tp)
 			c.Exec(1)
 			c.Count("wordlist_recipes_that_must_succeed", 1)
 			if g.Pw == nil {
@@ -291,6 +295,10 @@ func c13Judge(c *Ctx, rec spg.CharRecipe, kn knobSet, sample bool) {
 		script = make([]uint32, 64)
 	}
 	t := &tape.Tape{Script: script}
+	if c.R.Chance(1, 3) { // a legal stream: many rejected raw words in a row before an accepted one
+		t.RejectAt = map[int]bool{1 + c.R.Intn(3): true}
+		t.RejectRun = []int{1, 2, 17, 40}[c.R.Intn(4)]
+	}
 	g := runGen(rec, t)
 	c.Exec(1)
 	if len(sem.ReqLive) > 0 {
